@@ -784,6 +784,10 @@ def footprint_events(ctx, di, all_events, targets):
         ctx.obligation("footprint condition [ds%d]: extracted checker answered" % di, False, "pqref conc_footprint_check timed out or died")
         return
     ok_model = bool(out[0])
+    if len(out) > 2:
+        kd = ctx.extra.setdefault("observed_event_kinds", {"publish": 0, "same": 0, "change": 0, "remove": 0})
+        for nm, v_ in zip(("publish", "same", "change", "remove"), out[2]):
+            kd[nm] += int(v_)
     # the same condition evaluated in Python (model vs harness view of the same events)
     table, py_bad = {}, None
     for i, (phase, op, k_, o_, n_, p_, site) in enumerate(meta):
@@ -799,8 +803,10 @@ def footprint_events(ctx, di, all_events, targets):
     if not ok_model and out[1]:
         i = int(out[1][0][0])
         phase, op, k_, o_, n_, p_, site = meta[i]
-        detail = "event %d: location %s: %r -> %r during %s (%s) at %s, pattern %s%s" % (
-            i, k_, o_, n_, okey(op), phase, site, p_, (" - refuted by " + REFUTED_BY[p_]) if p_ in REFUTED_BY else "")
+        kind = "REMOVAL (Del: C20_removal_classified; confluent only for a Multi location whose readers do not read back: C20_del_invalidate_confluent / C20_del_readback_refuted)" \
+            if n_ is None else ("CHANGE" if o_ is not None and o_ != n_ else "publication")
+        detail = "event %d [%s]: location %s: %r -> %r during %s (%s) at %s, pattern %s%s" % (
+            i, kind, k_, o_, n_, okey(op), phase, site, p_, (" - refuted by " + REFUTED_BY[p_]) if p_ in REFUTED_BY else "")
         if site is not None and len(site) == 4 and phase.startswith("fresh"):
             targets.append({"di": di, "op": op, "site": list(site[:3]), "opcodes": phase.endswith("opcode"), "pattern": p_, "key": k_})
     ctx.obligation("footprint condition [ds%d]: every observed write of every inventory location is an idempotent publication at a "
